@@ -10,7 +10,9 @@ from ..astutil import cond_terms, inside, norm_cmp
 from ..core import AnalysisError, const_value, walk_own
 from ..defuse import DefUse, Terms, show, walk_term
 from ..defuse import key as tkey
-from ..tutil import EvUnknown, apply_partials, bound_args, ev_term, lin
+from ..paths import path_variants
+from ..tutil import (EvUnknown, apply_partials, bound_args, ev_term, lin,
+                     seq_concat)
 
 EXPLANATION = (
     "Static analysis of parsers.pin_to_tsv.convert_line_pin_to_tsv / "
@@ -63,18 +65,11 @@ def _convert_line(ctx, f):
     if not ok:
         return
     cols = t[3][0]
-    parts = []
-
-    def flat(x):
-        if x[0] == "bin" and x[1] == "+":
-            flat(x[2])
-            flat(x[3])
-        else:
-            parts.append(x)
-    flat(cols)
-    ctx.require(len(parts) == 3, f"{f.qual}: output is not prefix + "
-                f"[proteins] + suffix: {show(cols, 160)}")
-    pre, mid, suf = parts
+    pieces = seq_concat(cols)
+    ctx.require(len(pieces) == 3 and [k for k, _x in pieces] == [
+        "splice", "item", "splice"], f"{f.qual}: output is not prefix + "
+        f"[proteins] + suffix: {show(cols, 160)}")
+    pre, mid, suf = pieces[0][1], ("list", (pieces[1][1],)), pieces[2][1]
     split = ("mcall", ("param", p_line), "split", (), (("sep", (
         "param", p_sepc)),))
     split2 = ("mcall", ("param", p_line), "split", (("param", p_sepc),), ())
@@ -164,6 +159,11 @@ def _is_valid(ctx, f):
     rets = [n for n in ast.walk(f.node) if isinstance(n, ast.Return)]
     trues = [r for r in rets if const_value(r.value) is True]
     falses = [r for r in rets if const_value(r.value) is False]
+    alls = [r for r in rets if r.value is not None and T.of(r.value)[:2] ==
+            ("call", "builtins.all")]
+    if len(alls) == 1 and not trues and len(falses) + 1 == len(rets):
+        _is_valid_all_form(ctx, f, T, cfg, alls[0], falses, NEXT, width)
+        return
     ctx.check(len(trues) == 1 and len(trues) + len(falses) == len(rets),
               "C19b-single-true", f,
               "there is exactly one 'return True'",
@@ -304,6 +304,56 @@ def _is_valid(ctx, f):
               "second line not checked", node=f.node)
 
 
+def _is_valid_all_form(ctx, f, T, cfg, ret, falses, NEXT, width):
+    """is_valid_tsv written as  return all(width(line) == header width for
+    line in <all remaining lines>)."""
+    p_in = f.params[0]
+    t = T.of(ret.value)
+    comp = t[2][0] if t[2] else ("x",)
+    chains = [("call", "itertools.chain", ((k, (NEXT,)), ("param", p_in)),
+               ()) for k in ("list", "tuple")]
+    ok = comp[0] == "comp" and len(comp[3]) == 1 and not comp[3][0][2]
+    IT = comp[3][0][1] if ok else None
+    ctx.check(ok and (IT == ("param", p_in) or IT in chains),
+              "C19b-true-only-after-all-lines", f,
+              "True is returned only when every remaining line passes",
+              f"all(...) ranges over {show(IT, 80) if IT else None}",
+              node=ret)
+    ctx.check(True, "C19b-single-true", f,
+              "validity is the conjunction over all lines", "")
+    c = norm_cmp(comp[2], True) if ok else None
+    W_HDR = width(NEXT)
+    ok_in = c is not None and c[0] == "eq" and {c[1], c[2]} == {
+        width(("elem", IT)), W_HDR}
+    ctx.check(ok_in, "C19b-mismatch-rejected", f,
+              "a line is accepted iff its field count equals the header's",
+              f"per-line test is {show(comp[2], 120) if ok else None}",
+              node=ret)
+    ctx.check(ok_in, "C19b-same-width-measure", f,
+              "header and every further line are measured by splitting on "
+              "the same column separator", "", node=ret)
+    DD = ("mcall", NEXT, "startswith", (("const", "DefaultDirection"),), ())
+    dd = [r for r in falses
+          if (DD, True) in cond_terms(cfg, T, r)]
+    ctx.check(len(dd) >= 1 and cfg.every_path_passes(
+        cfg.entry.id, cfg.node_of(ret).id,
+        {cfg.node_of(cfg.stmt_of(t_)).id
+         for r in dd for t_, _o in cfg.necessary_conditions(r)}),
+        "C19b-default-direction-invalid", f,
+        "a DefaultDirection second line makes the file invalid",
+        "no rejection of a DefaultDirection line", node=f.node)
+    n_next = len([n for n in walk_own(f.node) if isinstance(n, ast.Call)
+                  and T.of(n) == NEXT])
+    explicit = [r for r in falses if any(
+        isinstance(c_, tuple) and c_[0] == "ne" and c_[1] == c_[2] == W_HDR
+        for c_ in [norm_cmp(x, o) or (x, o)
+                   for x, o in cond_terms(cfg, T, r)])]
+    ctx.check(IT in chains or n_next == 1 or explicit,
+              "C19b-second-line-checked", f,
+              "the second line's width is compared with the header's",
+              "second line not checked", node=f.node)
+
+
 def _strip_of(t, base=None):
     """x of x.strip() / x.rstrip('\\n') ...; None otherwise"""
     if t[0] == "mcall" and t[2] in ("strip", "rstrip") and (
@@ -327,8 +377,10 @@ def _to_valid(ctx, f):
               and isinstance(n.func, ast.Attribute)
               and n.func.attr == "write" and T.of(n.func.value) == (
                   "param", p_out) and len(n.args) == 1]
-    ctx.require(len(writes) == 3, f"{f.qual}: expected header write, "
-                "second-line write and loop write")
+    ctx.require(len(writes) in (2, 3), f"{f.qual}: expected header write, "
+                "second-line write and loop write (or header write and one "
+                "loop over second line + rest)")
+    chained = len(writes) == 2
     facts = []
     for w in writes:
         t = apply_partials(T.of(w.args[0]))
@@ -392,6 +444,9 @@ def _to_valid(ctx, f):
                   "off a last line that has no trailing newline",
                   node=x["node"])
         x["src"] = src
+    if chained:
+        _to_valid_chained(ctx, f, prog, cfg, others, NEXT, p_in)
+        return
     seconds = [x for x in others if x.get("src") == NEXT]
     DD = ("mcall", ("mcall", NEXT, "strip", (), ()), "startswith",
           (("const", "DefaultDirection"),), ())
@@ -420,14 +475,92 @@ def _to_valid(ctx, f):
               node=rest[0]["node"] if rest else f.node)
 
 
+def _to_valid_chained(ctx, f, prog, cfg, others, NEXT, p_in):
+    """One loop writes the second line and the rest: its iterable is
+    chain((second line,), f_in) unless the second line is a
+    DefaultDirection line, then f_in alone."""
+    ok = len(others) == 1 and others[0]["loop"] is not None
+    lp = others[0]["loop"] if ok else None
+    seen = {}
+    if ok:
+        for v in path_variants(f.node):
+            vT = Terms(DefUse(prog, f, fnode=v.fnode))
+            flag = None
+            for t, o in v.conds:
+                tt = vT.of(t)
+                while tt[0] == "un" and tt[1] == "not":
+                    tt, o = tt[2], not o
+                if tt[0] == "mcall" and tt[2] == "startswith" and tt[3] == (
+                        ("const", "DefaultDirection"),) and (
+                            tt[1] == NEXT or _strip_of(tt[1]) == NEXT):
+                    flag = o
+            vl = [n for n in walk_own(v.fnode) if isinstance(n, ast.For)]
+            if len(vl) != 1:
+                ok = False
+                break
+            it = vT.of(vl[0].iter)
+            for fl in ([flag] if flag is not None else [True, False]):
+                seen.setdefault(fl, set()).add(it)
+    F_IN = ("param", p_in)
+    SECOND = None
+    ok_2 = False
+    if ok and seen.get(True) == {F_IN} and len(seen.get(False, ())) == 1:
+        it = next(iter(seen[False]))
+        if it[0] == "call" and it[1] == "itertools.chain" and \
+                len(it[2]) == 2 and it[2][1] == F_IN and \
+                it[2][0][0] in ("tuple", "list") and len(it[2][0][1]) == 1:
+            SECOND = it[2][0][1][0]
+            ok_2 = SECOND == NEXT or _strip_of(SECOND) == NEXT
+    ctx.check(ok_2, "C19b-second-line", f,
+              "the second line is written (first) unless it is a "
+              "DefaultDirection line",
+              f"lines looped over: { {k: [show(x, 80) for x in v] for k, v in seen.items()} }",
+              node=lp or f.node)
+    x = others[0] if others else None
+    ok_l = ok and x is not None and not x["conds"] and not any(
+        isinstance(n, (ast.Break, ast.Continue, ast.Return))
+        for n in ast.walk(lp)) and x.get("src") is not None and \
+        x["src"][0] == "elem"
+    ctx.check(ok_l, "C19b-every-line-written", f,
+              "every further line is converted and written, in order",
+              "the loop over the remaining lines skips or stops",
+              node=lp or f.node)
+
+
 def _main_verify(ctx, f):
+    """Where is the in-place conversion called, and under which conditions
+    (collected along the call chain down from main)?"""
     prog = ctx.prog
-    calls = [n for n in ast.walk(f.node) if isinstance(n, ast.Call)
-             and ast.unparse(n.func) == "pin_to_valid_tsv"]
-    ctx.require(len(calls) == 1, f"{f.qual}: conversion call not found")
-    cfg = CFG(f.node)
-    T = Terms(DefUse(prog, f))
-    cs = cond_terms(cfg, T, calls[0])
+    reach = prog.reachable([f.qual])
+    sites = []
+    for q in sorted(reach):
+        g = prog.funcs.get(q)
+        if g is None or isinstance(g.node, ast.Lambda) or \
+                q.startswith(PT):
+            continue
+        for n in walk_own(g.node):
+            if isinstance(n, ast.Call) and isinstance(
+                    n.func, (ast.Name, ast.Attribute)) and ast.unparse(
+                        n.func).split(".")[-1] == "pin_to_valid_tsv":
+                sites.append((g, n))
+    ctx.require(len(sites) == 1, f"{f.qual}: expected one call of the "
+                f"conversion on the analysis path, found {len(sites)}")
+    g, call = sites[0]
+
+    def chain_conds(fn, node, depth=0):
+        cfg_ = CFG(fn.node)
+        T_ = Terms(DefUse(prog, fn))
+        cs = list(cond_terms(cfg_, T_, node))
+        if fn.qual != f.qual and depth < 4:
+            callers = [(c, n_) for c, n_, _k in prog.callers_of(fn.qual)
+                       if c.qual in reach or c.qual == f.qual]
+            ctx.require(len(callers) == 1, f"{fn.qual}: called from "
+                        f"{len(callers)} places; rule C19c needs re-reading")
+            cs += chain_conds(callers[0][0], callers[0][1], depth + 1)
+        return cs
+
+    cs = chain_conds(g, call)
+    T = Terms(DefUse(prog, g))
     verify = [c for c, o in cs if o and c[0] == "attr"
               and c[2] == "verify_pin"]
     invalid = [c for c, o in cs if not o and c[0] == "call"
@@ -436,10 +569,10 @@ def _main_verify(ctx, f):
               "only files reported invalid are converted, and only when "
               "verification is requested",
               f"conditions: {[(show(c, 80), o) for c, o in cs]}",
-              node=calls[0])
+              node=call)
     ok_v = False
     if invalid:
-        b = bound_args(prog, T.of(calls[0])) or {}
+        b = bound_args(prog, T.of(call)) or {}
         src = b.get("f_in")
         chk = invalid[0][2][0] if invalid[0][2] else None
 
@@ -453,4 +586,4 @@ def _main_verify(ctx, f):
               "validity comes from is_valid_tsv on the same file that is "
               "converted",
               f"conditions: {[(show(c, 120), o) for c, o in cs]}",
-              node=calls[0])
+              node=call)
